@@ -355,8 +355,15 @@ fn write_data_to_stream<F: Read + Write + Seek>(
         old_stream_len.max(buf_offset_from_start + buf.len() as u64);
     let new_start_sector = if old_start_sector == consts::END_OF_CHAIN {
         // Case 1: The stream has no existing chain.  The stream is empty, and
-        // we are writing at the start.
-        debug_assert_eq!(old_stream_len, 0);
+        // we are writing at the start.  (A damaged file can hold an entry
+        // that claims a length without naming any sector.)
+        if old_stream_len != 0 {
+            invalid_data!(
+                "Stream {} has length {} but no sectors",
+                stream_id,
+                old_stream_len
+            );
+        }
         debug_assert_eq!(buf_offset_from_start, 0);
         if new_stream_len < consts::MINI_STREAM_CUTOFF as u64 {
             // Case 1a: The data we're writing is small enough that it
@@ -448,8 +455,15 @@ fn resize_stream<F: Read + Write + Seek>(
     };
     let new_start_sector = if old_start_sector == consts::END_OF_CHAIN {
         // Case 1: The stream has no existing chain.  We will allocate a new
-        // chain that is all zeroes.
-        debug_assert_eq!(old_stream_len, 0);
+        // chain that is all zeroes.  (A damaged file can hold an entry that
+        // claims a length without naming any sector.)
+        if old_stream_len != 0 {
+            invalid_data!(
+                "Stream {} has length {} but no sectors",
+                stream_id,
+                old_stream_len
+            );
+        }
         if new_stream_len < consts::MINI_STREAM_CUTOFF as u64 {
             // Case 1a: The new length is small enough that it should be placed
             // into a new mini chain.
